@@ -159,24 +159,58 @@ def enterStep (f : Faults) (delay : Nat) (s : Step) (env : Env) :
   | .hook => ([.hook s.id], if f (.hook s.id) then .error (.hook s.id) else .ok none, env)
   | _ => ([.enter s.id], if f (.enter s.id) then .error (.enter s.id) else .ok (some (.cm s.id)), env)
 
-/-- the body of the guarded block in `__enter__`: enter the steps in order, stop at the first that
-    raises.  Result: events, exception, the ExitStack, environment. -/
-def enterSteps (f : Faults) (delay : Nat) : List Step → List Frame → Env →
+/-- the steps that are entered by ONE context manager handed to `self._cx.enter_context`:
+    `ConsoleConnector._connect` (connector/common.py) is the generator
+    `with self.host.clone() as cloned, self.connect(cloned) as ch: yield ch` — the lab-host clone
+    and the console connection are one unit; every other step is a unit of its own. -/
+def units : List Step → List (List Step)
+  | [] => []
+  | [s] => [[s]]
+  | s :: c :: rest => if s.kind == .host then [s, c] :: units rest else [s] :: units (c :: rest)
+
+/-- `__enter__` of one unit: the `with a, b:` statement inside the generator enters its context
+    managers in order; when one fails to enter, those entered before it are exited AT ONCE,
+    innermost first, by that `with` statement (the last exception raised leaves the generator) —
+    nothing of the unit reaches the ExitStack.  When all are entered the generator yields and
+    `enter_context` registers it: exiting it later exits them innermost first, each seeing what
+    the one before left in flight, exactly as consecutive callbacks of the stack would.
+    (A lab-host clone never handles — `Kind.mayHandle` —, so the walk over `held` uses the empty
+    step table.) -/
+def enterUnit (f : Faults) (delay : Nat) : List Step → List Frame → Env →
+    List Ev × Except Tag (List Frame) × Env
+  | [], held, env => ([], .ok held, env)
+  | s :: rest, held, env =>
+    match enterStep f delay s env with
+    | (ev, .error t, env1) =>
+      let (evx, fl, env2) := unwind f (fun _ => false) held { exc := some t } env1
+      (ev ++ evx, .error (fl.raised.getD t), env2)
+    | (ev, .ok fr, env1) =>
+      let (evs, r, env2) := enterUnit f delay rest (fr.toList ++ held) env1
+      (ev ++ evs, r, env2)
+
+/-- enter the units in order, stop at the first that raises.  Result: events, exception, the
+    ExitStack, environment. -/
+def enterUnits (f : Faults) (delay : Nat) : List (List Step) → List Frame → Env →
     List Ev × Option Tag × List Frame × Env
   | [], cx, env => ([], none, cx, env)
-  | s :: rest, cx, env =>
-    match enterStep f delay s env with
+  | u :: rest, cx, env =>
+    match enterUnit f delay u [] env with
     | (ev, .error t, env1) => (ev, some t, cx, env1)
-    | (ev, .ok fr, env1) =>
-      let (evs, r, cx2, env2) := enterSteps f delay rest (fr.toList ++ cx) env1
+    | (ev, .ok frs, env1) =>
+      let (evs, r, cx2, env2) := enterUnits f delay rest (frs ++ cx) env1
       (ev ++ evs, r, cx2, env2)
+
+/-- the body of the guarded block in `__enter__`: enter the steps in order, stop at the first that
+    raises.  Result: events, exception, the ExitStack, environment. -/
+def enterSteps (f : Faults) (delay : Nat) (steps : List Step) (cx : List Frame) (env : Env) :
+    List Ev × Option Tag × List Frame × Env :=
+  enterUnits f delay (units steps) cx env
 
 /-- the order in which `__enter__` visits the classes: three filters over `type(self).mro()` with
     the connector, the shell and the hook (resolved through the MRO: the first definition) in
     between.  `ConsoleConnector._connect` (connector/common.py) is
     `with self.host.clone() as cloned, self.connect(cloned) as ch: yield ch` — two nested contexts
-    inside one generator; they behave as two consecutive steps (the second failing to enter exits
-    the first at once, exits run in reverse, the last exception wins). -/
+    inside one generator: two consecutive steps that form one unit (`units`, `enterUnit`). -/
 def machSteps (mro : List Step) : List Step :=
   mro.filter (fun s => s.kind == .pre)
   ++ (mro.find? (fun s => s.kind == .host)).toList
